@@ -4,7 +4,7 @@
 from collections import defaultdict
 
 from jaqalpaq.core.algorithm.visitor import Visitor
-from jaqalpaq.core import Macro
+from jaqalpaq.core import Macro, Parameter, NamedQubit
 from jaqalpaq.error import JaqalError
 
 
@@ -65,7 +65,15 @@ class UsedQubitIndicesVisitor(Visitor):
         # Note: This could be more elegant with a is_macro method on gates
         if isinstance(obj.gate_def, Macro):
             context = context or {}
-            macro_context = {**context, **obj.parameters}
+            # Bind each parameter to the value of its argument in the
+            # caller's context. Binding the unevaluated argument would make
+            # 'macro outer a { inner a }' look up a in the inner context,
+            # where it is bound to itself.
+            arguments = {
+                name: self.bind_argument(arg, context)
+                for name, arg in obj.parameters.items()
+            }
+            macro_context = {**context, **arguments}
             macro_body = obj.gate_def.body
             return self.visit(macro_body, macro_context)
         else:
@@ -75,6 +83,20 @@ class UsedQubitIndicesVisitor(Visitor):
                 else:
                     self.merge_into(indices, self.visit(param, context=context))
             return indices
+
+    def bind_argument(self, arg, context):
+        """Evaluate a macro argument in the context of the call."""
+        if isinstance(arg, Parameter):
+            if arg.name in context:
+                return context[arg.name]
+        elif isinstance(arg, NamedQubit):
+            try:
+                reg, idx = arg.resolve_qubit(context)
+            except JaqalError:
+                # Depends on a parameter that is not bound here
+                return arg
+            return reg[idx]
+        return arg
 
     def visit_Parameter(self, obj, context=None):
         return self.visit(obj.resolve_value(context=context), context=context)
